@@ -123,19 +123,18 @@ impl HiArgs {
 
         // We modify the mode in-place on `low` so that subsequent conversions
         // see the correct mode.
-        match low.mode {
-            Mode::Search(ref mut mode) => match *mode {
-                // treat `-v --count-matches` as `-v --count`
-                SearchMode::CountMatches if low.invert_match => {
-                    *mode = SearchMode::Count;
-                }
-                // treat `-o --count` as `--count-matches`
-                SearchMode::Count if low.only_matching => {
-                    *mode = SearchMode::CountMatches;
-                }
-                _ => {}
-            },
-            _ => {}
+        //
+        // N.B. The two rewrites compose: `-o --count -v` is first treated as
+        // `--count-matches -v` and then as `--count -v`.
+        if let Mode::Search(ref mut mode) = low.mode {
+            // treat `-o --count` as `--count-matches`
+            if *mode == SearchMode::Count && low.only_matching {
+                *mode = SearchMode::CountMatches;
+            }
+            // treat `-v --count-matches` as `-v --count`
+            if *mode == SearchMode::CountMatches && low.invert_match {
+                *mode = SearchMode::Count;
+            }
         }
 
         let mut state = State::new()?;
